@@ -59,8 +59,7 @@ def u(v, bits=64):
 def run(ctx):
     P = ctx.P
     fns = {f.name: f for f in P.funcs_in(BF)}
-    need = ["bloom_filter_block_index", "bloom_filter_block_insert", "bloom_filter_block_check",
-            "carquet_bloom_filter_create", "carquet_bloom_filter_from_data",
+    need = ["carquet_bloom_filter_create", "carquet_bloom_filter_from_data",
             "carquet_bloom_filter_insert_hash", "carquet_bloom_filter_check_hash",
             "carquet_bloom_filter_write", "carquet_bloom_filter_read", "carquet_bloom_filter_merge"]
     for n in need:
@@ -117,7 +116,7 @@ def run(ctx):
                 ctx.ob("R11.monotone", key, P.where(a),
                        "store to filter bits `%s` must be monotone (|=)" % src(a),
                        a.op == "|=", "op is %s" % a.op)
-            elif a.k == "CallExpr" and a.callee in ("memset", "memcpy", "memmove") and a.args():
+            elif a.k == "CallExpr" and a.callee in ("memset", "memcpy", "memmove") and a.args() and f.name != "carquet_bloom_filter_from_data":
                 if is_bits(f, cz, a.args()[0]):
                     nstores += 1
                     key = "bulk-store|%s:%s|%s" % (BF, f.name, a.callee)
@@ -125,177 +124,32 @@ def run(ctx):
                            "bulk write `%s` to filter bits only as initialisation of a buffer "
                            "allocated in the same function" % src(a), allocs_data,
                            "function allocates ->data" if allocs_data else "no allocation here")
-    ctx.floor("C20 filter-bit stores", nstores, 3)
+    ctx.floor("C20 filter-bit stores", nstores, 2)
 
     cr = fns["carquet_bloom_filter_create"]      # zero-initialisation is decided with the geometry below
 
-    # ---- (2) insert/check symmetry
-    ins, chk = fns["bloom_filter_block_insert"], fns["bloom_filter_block_check"]
-    ci, cc = Canon(ins), Canon(chk)
-    ins_store = [a for a in ins.body.walk() if is_assign(a) and a.c[0].strip().k == "ArraySubscriptExpr"]
-    if len(ins_store) != 1:
-        raise AnalysisBroken("expected exactly one word store in bloom_filter_block_insert, found %d"
-                             % len(ins_store))
-    st = ins_store[0]
-    I1 = ci(st.c[0])
-    V1 = ci(st.c[1])
-    # check side: every `return <false>` must be the then-branch of a bit test
-    false_returns = [r for r in chk.returns() if r.c and r.c[0] is not None and r.c[0].cv == 0]
-    tests = []
-    for r in false_returns:
-        iff = None
-        for anc in r.ancestors():
-            if anc.k == "IfStmt":
-                iff = anc
-                break
-        if iff is None:
-            ctx.bad("R11.symmetry", "unguarded-false|%s:%s" % (BF, chk.name), P.where(r),
-                    "block_check returns false without testing a bit (false negative)")
-            continue
-        # must be in the then branch
-        thenb = iff.c[-2] if len(iff.c) >= 3 and iff.c[-1] is not None and len(iff.kids()) >= 3 else None
-        cond = [x for x in iff.c if x is not None][0]
-        tests.append((r, iff, cond))
-    ctx.floor("C20 block_check false-returns", len(false_returns), 1)
-    for r, iff, cond in tests:
-        t = nocast(cc(cond))
-        # accepted forms: (X & M) == 0   |   !(X & M)
-        andn = None
-        if t[0] == "bin" and t[1] == "==" and ("int", 0) in (t[2], t[3]):
-            other = t[3] if t[2] == ("int", 0) else t[2]
-            if other[0] == "bin" and other[1] == "&":
-                andn = other
-        elif t[0] == "un" and t[1] == "!" and t[2][0] == "bin" and t[2][1] == "&":
-            andn = t[2]
-        key = "bit-test|%s:%s" % (BF, chk.name)
-        if andn is None:
-            ctx.inconclusive("R11.symmetry", key, P.where(cond),
-                             "bit test of block_check not in a recognised form: " + show(t))
-            continue
-        want = {repr(nocast(I1)), repr(nocast(V1))}
-        got = {repr(andn[2]), repr(andn[3])}
-        ctx.ob("R11.symmetry", key, P.where(cond),
-               "block_check tests the same (word, mask) that block_insert sets",
-               want == got,
-               "insert sets %s |= %s ; check tests %s & %s" % (show(nocast(I1)), show(nocast(V1)),
-                                                              show(andn[2]), show(andn[3])))
-    # the two functions touch the same words: all eight of the 32-byte block (skeleton accesses; the
-    # loop form does not matter)
-    from ..rules.skeleton import Interp, Ptr, U, Budget, Stop
-    words = {}
-    for f_, kind in ((ins, "w"), (chk, "r")):
-        try:
-            it = Interp(P, f_, budget=100000, max_forks=1024)
-            outs = it.run([Ptr("block", 0, 4), 0x0123456789ABCDEF])
-            ws = set()
-            for out in outs:
-                for a in out[0]:
-                    if a.base == "block":
-                        ws |= set(range(a.lo // 4, (a.hi + 3) // 4))
-            words[f_.name] = ws
-        except (Budget, Stop) as ex:
-            words[f_.name] = None
-    if None in words.values():
-        ctx.inconclusive("R11.symmetry", "loop-extent|%s:block_insert/check" % BF, P.where(chk.body),
-                         "abstract execution of block_insert/block_check")
-    else:
-        ctx.ob("R11.symmetry", "loop-extent|%s:block_insert/check" % BF, P.where(chk.body),
-               "insert writes and check reads the same words: all 8 of the block", words[ins.name] == words[chk.name] == set(range(8)),
-               "insert %s / check %s" % (sorted(words[ins.name]), sorted(words[chk.name])))
-
-    # ---- (6a) spec shape of the mask: 1 << ((SALT[i] * (uint32)hash) >> 27), word i, 8 words
-    v = nocast(V1)
-    shape_ok = (v[0] == "bin" and v[1] == "<<" and v[2] == ("int", 1) and v[3][0] == "bin"
-                and v[3][1] == ">>" and v[3][3] == ("int", 27) and v[3][2][0] == "bin"
-                and v[3][2][1] == "*")
-    salt_idx = None
-    key32 = False
-    if shape_ok:
-        ops = [v[3][2][2], v[3][2][3]]
-        for o in ops:
-            if o[0] == "index" and o[1] == ("global", "SALT"):
-                salt_idx = o[2]
-        key32 = any(o[0] == "param" for o in ops)
-    mul = [n for n in st.fn.body.walk() if n.k == "BinaryOperator" and n.op == "*"]
-    mul32 = any(n.t in ("uint32_t", "unsigned int") for n in mul)
-    ctx.ob("R5.spec", "mask-shape|%s:bloom_filter_block_insert" % BF, P.where(st),
-           "mask = 1 << ((SALT[i] * key32) >> 27) set in word i (Parquet SBBF)",
-           bool(shape_ok and salt_idx is not None and salt_idx == nocast(I1)[2] and key32 and mul32),
-           show(v))
-    if not shape_ok:
-        ctx.obs[-1].status = "inconclusive"
-    # loop bound 8
-    bound_ok = False
-    for n in ins.body.walk():
-        if n.k == "ForStmt":
-            cond = n.c[2]
-            if cond is not None and cond.k == "BinaryOperator" and cond.op == "<" and cond.c[1].cv == 8:
-                bound_ok = True
-    ctx.ob("R5.spec", "words-per-block|%s:bloom_filter_block_insert" % BF, P.where(ins.body),
-           "8 words per block", bound_ok)
+    # ---- (2) insert/check symmetry, (3) block selection, (6a) mask and index formulas: decided on the formulas
+    # the functions compute (hash carried as an opaque term through abstract execution)
+    from ..rules import sbbf
+    nsb = sbbf.check(ctx)
+    ctx.floor("C20 SBBF formula obligations", nsb, 12)
     # SALT
-    salt = None
+    # the salt table (whatever its name): a constant array of 8 32-bit words of this file. Its values also enter the
+    # mask formulas compared above; this obligation reports the table itself.
+    salts = []
     for unit, g in P.globals:
-        if g["name"] == "SALT" and P.rel(g["file"]) == BF and g.get("init") is not None:
-            salt = [x.cv if x.cv is not None else x.strip_casts().get("v") for x in g["init"].kids()]
-    if salt is None:
-        raise AnalysisBroken("SALT table not found")
-    ctx.ob("R5.spec", "salt|%s" % BF, BF, "SALT equals the 8 Parquet salt words",
-           [u(x, 32) for x in salt] == SPEC_SALT, str([hex(u(x, 32)) for x in salt]))
+        if P.rel(g["file"]) == BF and g.get("init") is not None and g.get("const") and "[8]" in g["t"] and "int" in g["t"]:
+            salts.append([x.cv if x.cv is not None else x.strip_casts().get("v") for x in g["init"].kids()])
+    if len(salts) == 1:
+        ctx.ob("R5.spec", "salt|%s" % BF, BF, "the salt table equals the 8 Parquet salt words",
+               [u(x, 32) for x in salts[0]] == SPEC_SALT, str([hex(u(x, 32)) for x in salts[0]]))
 
-    # ---- (3) block selection
-    ih, ch = fns["carquet_bloom_filter_insert_hash"], fns["carquet_bloom_filter_check_hash"]
-    def block_arg(f, callee):
-        cs = f.calls(callee)
-        if len(cs) != 1:
-            raise AnalysisBroken("%s: expected one call of %s" % (f.name, callee))
-        cz = Canon(f)
-        return cs[0], [nocast(cz(a)) for a in cs[0].args()]
-    c1, a1 = block_arg(ih, "bloom_filter_block_insert")
-    c2, a2 = block_arg(ch, "bloom_filter_block_check")
-    ctx.ob("R11.symmetry", "block-select|%s:insert_hash/check_hash" % BF, P.where(c2),
-           "insert_hash and check_hash address the same block with the same hash",
-           a1 == a2, "insert %s / check %s" % ([show(x) for x in a1], [show(x) for x in a2]))
-    blk_calls = [s for s in subtrees(a1[0]) if s[0] == "call" and s[1] == ("func", "bloom_filter_block_index")]
-    ctx.ob("R11.symmetry", "block-index-used|%s:insert_hash" % BF, P.where(c1),
-           "block address = data + block_index(hash, num_blocks) * 32",
-           len(blk_calls) >= 1 and any(s == ("int", 32) for s in subtrees(a1[0])),
-           show(a1[0]))
+    ch = fns["carquet_bloom_filter_check_hash"]
     # returns of check_hash: never a constant false
     for r in ch.returns():
         if r.c and r.c[0] is not None and r.c[0].cv == 0:
             ctx.bad("R11.symmetry", "const-false|%s:%s" % (BF, ch.name), P.where(r),
                     "check_hash returns a constant false (false negative)")
-    retcalls = [r for r in ch.returns() if r.c and r.c[0] is not None
-                and r.c[0].strip().k == "CallExpr" and r.c[0].strip().callee == "bloom_filter_block_check"]
-    ctx.ob("R11.symmetry", "check-returns-test|%s:%s" % (BF, ch.name), P.where(ch.body),
-           "check_hash returns block_check's answer unmodified", len(retcalls) == 1)
-
-    # block index formula
-    bi = fns["bloom_filter_block_index"]
-    rets = bi.returns()
-    if len(rets) != 1:
-        raise AnalysisBroken("bloom_filter_block_index: expected a single return")
-    t = nocast(Canon(bi)(rets[0].c[0]))
-    h32 = ("bin", ">>", ("param", 0, "uint64_t"), ("int", 32))
-    nb = ("param", 1, "size_t")
-    spec1 = ("bin", ">>", ("bin", "*", h32, nb), ("int", 32))
-    spec2 = ("bin", ">>", ("bin", "*", nb, h32), ("int", 32))
-    bad1 = ("bin", "%", h32, nb)
-    bad2 = ("bin", "%", ("param", 0, "uint64_t"), nb)
-    key = "block-index-formula|%s:bloom_filter_block_index" % BF
-    if t in (spec1, spec2):
-        # the product must be computed in 64 bits
-        mul = [n for n in bi.body.walk() if n.k == "BinaryOperator" and n.op == "*"]
-        wide = all(n.t in ("uint64_t", "unsigned long", "unsigned long long", "size_t") for n in mul)
-        ctx.ob("R5.spec", key, P.where(rets[0]), "block index = ((hash >> 32) * num_blocks) >> 32",
-               wide, show(t))
-    elif t in (bad1, bad2):
-        ctx.bad("R5.spec", key, P.where(rets[0]),
-                "block index uses modulo; Parquet SBBF specifies ((hash >> 32) * num_blocks) >> 32",
-                show(t))
-    else:
-        ctx.inconclusive("R5.spec", key, P.where(rets[0]), "unrecognised block index formula", show(t))
 
     # ---- (4) typed pairs
     pairs = 0
@@ -476,48 +330,10 @@ def run(ctx):
     except sem.Inconclusive as ex:
         ctx.inconclusive("R5.spec", "size-rounding|%s:carquet_bloom_filter_create" % BF, P.where(cr.body), "abstract execution", str(ex))
 
-    mg = fns["carquet_bloom_filter_merge"]
-    cz = Canon(mg)
-    mguard = None
-    for n in mg.body.walk():
-        if n.k == "IfStmt":
-            c = nocast(cz([x for x in n.c if x is not None][0]))
-            if c[0] == "bin" and c[1] == "!=" and all(
-                    isinstance(s, tuple) and s[0] == "member" and s[2] in ("num_bytes", "num_blocks")
-                    for s in (c[2], c[3])):
-                mguard = n
-    loops_ = [n for n in mg.body.walk() if n.k == "ForStmt"]
-    okm = False
-    if mguard is not None and loops_:
-        okm = mg.cfg.node_dominates(_first_cfg_node(mg, mguard), _first_cfg_node(mg, loops_[0]))
-    ctx.ob("R6.guard", "merge-equal-size|%s:carquet_bloom_filter_merge" % BF, P.where(mg.body),
-           "merge refuses filters of different size before touching bits", okm)
-    # every store of merge: dest word |= src word with the same index, and the loops cover all bytes
-    mst = [a for a in assignments(mg.body)
-           if a.c[0].strip().k in ("ArraySubscriptExpr", "UnaryOperator") and a.c[0].strip().k != "DeclRefExpr"
-           and (a.c[0].strip().k == "ArraySubscriptExpr" or a.c[0].strip().op == "*")]
-    ctx.floor("C20 merge stores", len(mst), 1)
-    dparam = ("member", ("param", 0, "carquet_bloom_filter_t *"), "data")
-    sparam = ("member", ("param", 1, "carquet_bloom_filter_t *"), "data")
-    for stn in mst:
-        l, r = nocast(cz(stn.c[0])), nocast(cz(stn.c[1]))
-        okmi = (l[0] == "index" and r[0] == "index" and l[2] == r[2] and stn.op == "|="
-                and l[1] == dparam and r[1] == sparam)
-        ctx.ob("R11.monotone", "merge-or|%s:carquet_bloom_filter_merge" % BF, P.where(stn),
-               "merge ORs src.data[k] into dest.data[k] for the same k", okmi,
-               "%s %s %s" % (show(l), stn.op, show(r)))
-    # coverage: filter size is a multiple of 32 bytes (invariant of create/from_data); a loop
-    # `for (i = 0; i + K <= B; i += K)` over elements of e bytes with B*e == num_bytes covers
-    # everything iff K*e divides 32 or a tail loop finishes the remainder.
-    cov = _merge_coverage(mg, cz)
-    key = "merge-coverage|%s:carquet_bloom_filter_merge" % BF
-    if cov[0] == "ok":
-        ctx.ok("R11.coverage", key, P.where(mg.body), "merge loop(s) cover every byte of the filter", cov[1])
-    elif cov[0] == "bad":
-        ctx.bad("R11.coverage", key, P.where(mg.body),
-                "merge does not OR every block of the source into the destination", cov[1])
-    else:
-        ctx.inconclusive("R11.coverage", key, P.where(mg.body), "merge loop shape not recognised", cov[1])
+    # merge and from_data: decided on what the functions do to the bits (abstract execution with opaque bits)
+    nmg = sbbf.merge_rules(ctx)
+    ctx.floor("C20 merge scenarios", nmg, 8)
+    sbbf.bulk_store_rules(ctx)
 
     # ---- (6b) XXH64 constants
     xf = P.fn("carquet_xxhash64", XX)
@@ -557,93 +373,6 @@ def run(ctx):
     ctx.count("xxh64_fingerprint_pairs", len(fp))
     ctx.floor("XXH64 constant sites", sum(fp.values()), 40)
     _xxh64_schedule(ctx, xf)
-
-
-def _elem_size(node):
-    t = (node.t or "").replace("const ", "").strip()
-    return {"uint8_t": 1, "unsigned char": 1, "char": 1, "uint16_t": 2, "uint32_t": 4,
-            "unsigned int": 4, "uint64_t": 8, "unsigned long": 8, "size_t": 8,
-            "unsigned long long": 8}.get(t)
-
-
-def _merge_coverage(mg, cz):
-    """Decide whether the for-loops of merge visit every byte of dest->data."""
-    loops = [n for n in mg.body.walk() if n.k == "ForStmt"]
-    if not loops:
-        return ("unknown", "no for loop")
-    nbytes = ("member", ("param", 0, "carquet_bloom_filter_t *"), "num_bytes")
-    nbytes2 = ("member", ("param", 1, "carquet_bloom_filter_t *"), "num_bytes")
-    info = []
-    for lp in loops:
-        init, cond, inc, body = lp.c[0], lp.c[2], lp.c[3], lp.c[4]
-        if cond is None or inc is None:
-            return ("unknown", "loop without condition/increment")
-        c = fold(nocast(cz(cond)))
-        # stride
-        incn = inc.strip()
-        if incn.k == "UnaryOperator" and incn.op == "++":
-            K = 1
-        elif incn.k == "CompoundAssignOperator" and incn.op == "+=" and incn.c[1].cv is not None:
-            K = incn.c[1].cv
-        else:
-            return ("unknown", "unrecognised increment " + src(inc))
-        # condition i < B  or  i + K <= B  (canon turns a > b into b < a)
-        if c[0] != "bin" or c[1] not in ("<", "<="):
-            return ("unknown", "unrecognised loop condition " + show(c))
-        lhs, B = c[2], c[3]
-        slack = 0
-        if c[1] == "<=":
-            if lhs[0] == "bin" and lhs[1] == "+" and lhs[2][0] == "int":
-                slack = lhs[2][1]
-            else:
-                return ("unknown", "unrecognised loop condition " + show(c))
-            if slack != K:
-                return ("unknown", "loop condition slack %d differs from stride %d" % (slack, K))
-        elif K != 1:
-            return ("unknown", "strided loop with '<' condition")
-        # element size from the stores in the body
-        sizes = set()
-        for a in assignments(body):
-            l = a.c[0].strip()
-            if l.k == "ArraySubscriptExpr":
-                sizes.add(_elem_size(l))
-        if len(sizes) != 1 or None in sizes:
-            return ("unknown", "cannot determine element size")
-        e = sizes.pop()
-        # bound must be num_bytes / e
-        if e == 1:
-            okB = B in (nbytes, nbytes2)
-        else:
-            okB = B in (("bin", "/", nbytes, ("int", e)), ("bin", "/", nbytes2, ("int", e)))
-        starts_zero = init is not None and any(x.cv == 0 for x in init.walk() if x.k == "IntegerLiteral")
-        info.append((K, e, okB, starts_zero, show(c)))
-    first = info[0]
-    K, e, okB, z, txt = first
-    if not okB:
-        return ("unknown", "loop bound is not num_bytes/elem: " + txt)
-    if not z:
-        return ("unknown", "loop does not start at 0")
-    if K == 1:
-        return ("ok", "unit stride over %s, %d-byte elements" % (txt, e))
-    if 32 % (K * e) == 0:
-        return ("ok", "stride %d x %d bytes divides the 32-byte block" % (K, e))
-    # needs a tail loop with unit stride up to the same bound
-    for (K2, e2, okB2, z2, txt2) in info[1:]:
-        if K2 == 1 and e2 == e and okB2 and not z2:
-            return ("ok", "strided main loop plus unit-stride tail loop")
-    return ("bad", "loop advances %d bytes per iteration (%s) with no tail loop: filter sizes are "
-            "multiples of 32 bytes only, the last %d-byte remainder is skipped" % (K * e, txt, 32 % (K * e)))
-
-
-def _is_roundup32(t):
-    # accept ((n + 31) / 32) * 32 and (n + 31) & ~31
-    def has(tt, what):
-        return any(s == what for s in subtrees(tt))
-    if t[0] == "bin" and t[1] == "*" and has(t, ("int", 32)) and has(t, ("int", 31)):
-        return any(isinstance(s, tuple) and s[0] == "bin" and s[1] == "/" for s in subtrees(t))
-    if t[0] == "bin" and t[1] == "&" and has(t, ("int", 31)):
-        return True
-    return False
 
 
 def _first_cfg_node(fn, stmt):
